@@ -8,7 +8,7 @@ use crate::env::Env;
 use crate::pipeline::{show_out, show_outb};
 use crate::subject::*;
 use crate::ucd::repo_dir;
-use precis_core::profile::{PrecisFastInvocation, Profile};
+use precis_core::profile::{PrecisFastInvocation, Profile, Rules};
 use precis_core::Error;
 use precis_profiles::{Nickname, OpaqueString, UsernameCaseMapped, UsernameCasePreserved};
 use rayon::prelude::*;
@@ -183,7 +183,7 @@ pub fn check_forms(ll_opt: Option<&LongLived>, s: &str, st: &mut Stats) {
 
 // ---- (b) histories -------------------------------------------------------
 
-pub const INPUTS: [&str; 10] = [
+pub const INPUTS: [&str; 12] = [
     "abc",                       // unchanged on every path
     "Abc",                       // changed at index 0 (case-mapped), unchanged elsewhere
     "\u{e9}\u{3000}\u{ff22}",    // changed after a multi-byte prefix (space / width)
@@ -194,6 +194,8 @@ pub const INPUTS: [&str; 10] = [
     "\u{e9}",                    // plain non-ASCII letter
     "\u{aa}",                    // HasCompat: the two string classes disagree about it
     "a\u{ff22}\u{ff76}",         // width-mapped characters from the middle of the table
+    "   ",                       // only spaces: an error that is found late (after mapping, "empty")
+    "a\u{3000}b \u{a0}",         // non-ASCII spaces (the call after an error must still map them)
 ];
 
 #[derive(Copy, Clone, Debug, PartialEq, Eq)]
@@ -201,12 +203,14 @@ pub enum Op3 {
     Prepare,
     Enforce,
     Compare,
+    /// the five rule functions, one after the other (instance API only)
+    Rules,
 }
 
 pub fn alphabet() -> Vec<(Prof, Op3, usize)> {
     let mut v = Vec::new();
     for p in Prof::ALL {
-        for o in [Op3::Prepare, Op3::Enforce, Op3::Compare] {
+        for o in [Op3::Prepare, Op3::Enforce, Op3::Compare, Op3::Rules] {
             for i in 0..INPUTS.len() {
                 v.push((p, o, i));
             }
@@ -222,7 +226,25 @@ pub fn run_static(a: (Prof, Op3, usize)) -> String {
         Op3::Prepare => show_out(&prepare_static(a.0, s)),
         Op3::Enforce => show_out(&enforce_static(a.0, s)),
         Op3::Compare => show_outb(&compare_static(a.0, s, "ABC")),
+        Op3::Rules => rules_text(|rf| crate::subject::rule(a.0, rf, s)),
     }
+}
+
+fn rules_text<F: Fn(crate::subject::RuleFn) -> Out>(f: F) -> String {
+    crate::subject::RuleFn::ALL.iter().map(|rf| format!("{}={}", rf.name(), show_out(&f(*rf)))).collect::<Vec<_>>().join(" ; ")
+}
+
+macro_rules! rules_on {
+    ($inst:expr, $s:expr) => {{
+        use crate::subject::RuleFn;
+        rules_text(|rf| match rf {
+            RuleFn::Width => conv(guard(|| $inst.width_mapping_rule($s))),
+            RuleFn::Additional => conv(guard(|| $inst.additional_mapping_rule($s))),
+            RuleFn::Case => conv(guard(|| $inst.case_mapping_rule($s))),
+            RuleFn::Norm => conv(guard(|| $inst.normalization_rule($s))),
+            RuleFn::Dir => conv(guard(|| $inst.directionality_rule($s))),
+        })
+    }};
 }
 
 fn run_long_lived(ll: &LongLived, a: (Prof, Op3, usize)) -> String {
@@ -240,6 +262,10 @@ fn run_long_lived(ll: &LongLived, a: (Prof, Op3, usize)) -> String {
         (Prof::Nick, Op3::Prepare) => show_out(&conv(guard(|| ll.nick.prepare(s)))),
         (Prof::Nick, Op3::Enforce) => show_out(&conv(guard(|| ll.nick.enforce(s)))),
         (Prof::Nick, Op3::Compare) => show_outb(&convb(guard(|| ll.nick.compare(s, "ABC")))),
+        (Prof::Ucm, Op3::Rules) => rules_on!(ll.ucm, s),
+        (Prof::Ucp, Op3::Rules) => rules_on!(ll.ucp, s),
+        (Prof::Opaque, Op3::Rules) => rules_on!(ll.opq, s),
+        (Prof::Nick, Op3::Rules) => rules_on!(ll.nick, s),
     }
 }
 
@@ -283,6 +309,7 @@ fn run_static_str(p: Prof, o: Op3, s: &str) -> String {
         Op3::Prepare => show_out(&prepare_static(p, s)),
         Op3::Enforce => show_out(&enforce_static(p, s)),
         Op3::Compare => show_outb(&compare_static(p, s, "ABC")),
+        Op3::Rules => rules_text(|rf| crate::subject::rule(p, rf, s)),
     }
 }
 
@@ -630,7 +657,7 @@ pub fn run(_env: &Env, run: &Run) -> (Stats, Coverage) {
     st.sample(json!({"forms": "UsernameCaseMapped::enforce(\"Abc\") via static/new()/default()/long-lived x &str/String/&String/Cow::Borrowed/Cow::Owned", "expected": "all Ok(\"abc\")"}));
     st.sample(json!({"history": ["Nickname.enforce(U+00A8 a)", "UsernameCaseMapped.compare(Abc, ABC)", "Nickname.enforce(U+00A8 a)"], "expected": "each result equals the result of the same call made first in a fresh process"}));
     let cov = Coverage {
-        rule: format!("(a) every string of length <= {} over 16 symbols x 4 profiles x ({{prepare, enforce}} x 14 (entry point, argument form) pairs (incl. owned Strings with spare capacity), the five rule functions x 3 argument forms) and compare x 8 forms: all equal; (b) every call history of length <= {} over an alphabet of {} calls (4 profiles x 3 ops x 10 inputs hitting every fast and slow path) executed on the process-wide statics and on one long-lived instance per profile, every result compared with the result of that call as the FIRST library call of a fresh process ({} child processes); (c) every interleaving of 2-3 threads over the lazy-singleton points, see 'schedules'; (d) inventory of shared-state constructs in the three crates; (e) SAMPLING, supplementary: free-running threads released from a barrier in fresh child processes; (f) race-detector pass for state the explorer has no scheduling point for: every one of ~1000 library calls (4 profiles x static/instance/rule-level entry points, both classes, all 8 context rules x 46 labels) as the first use of the library by 3 threads of a fresh process, and every unordered pair of those calls on 2 free-running threads, under ThreadSanitizer with std rebuilt (see 'race_detector_pass'); non-trivial = histories mixing different calls", n, depth, alpha.len(), alpha.len()),
+        rule: format!("(a) every string of length <= {} over 16 symbols x 4 profiles x ({{prepare, enforce}} x 14 (entry point, argument form) pairs (incl. owned Strings with spare capacity), the five rule functions x 3 argument forms) and compare x 8 forms: all equal; (b) every call history of length <= {} over an alphabet of {} calls (4 profiles x {{prepare, enforce, compare, the five rule functions}} x 12 inputs hitting every fast and slow path, incl. errors that are found late) executed on the process-wide statics and on one long-lived instance per profile, every result compared with the result of that call as the FIRST library call of a fresh process ({} child processes); (c) every interleaving of 2-3 threads over the lazy-singleton points, see 'schedules'; (d) inventory of shared-state constructs in the three crates; (e) SAMPLING, supplementary: free-running threads released from a barrier in fresh child processes; (f) race-detector pass for state the explorer has no scheduling point for: every one of ~1000 library calls (4 profiles x static/instance/rule-level entry points, both classes, all 8 context rules x 46 labels) as the first use of the library by 3 threads of a fresh process, and every unordered pair of those calls on 2 free-running threads, under ThreadSanitizer with std rebuilt (see 'race_detector_pass'); non-trivial = histories mixing different calls", n, depth, alpha.len(), alpha.len()),
         alphabet: json!({"symbols": sigma.iter().map(|c| format!("U+{:04X}", *c as u32)).collect::<Vec<_>>(), "history_inputs": INPUTS.iter().map(|s| show(s)).collect::<Vec<_>>()}),
         bound_completed: format!("forms: {} strings; histories: depth {}", tree_size(sigma.len(), n), depth),
         exhaustive: false,
